@@ -70,7 +70,7 @@ func genesisOK(g *genetics.Genome) bool {
 }
 
 // richStart is a hand-built start genome with everything the quantifiers name: a bias node, an unconnected sensor, two
-// outputs, a hidden node with a nil trait, a disabled gene, a recurrent self-loop, a recurrent back link and a gene
+// connected outputs and an unconnected one, a hidden node with a nil trait, a disabled gene, a recurrent self-loop, a recurrent back link and a gene
 // with a nil trait.
 func richStart() *genetics.Genome {
 	traits := make([]*neat.Trait, 3)
@@ -95,18 +95,20 @@ func richStart() *genetics.Genome {
 	n3 := mk(3, network.BiasNeuron, traits[0])
 	n4 := mk(4, network.OutputNeuron, traits[2])
 	n5 := mk(5, network.OutputNeuron, traits[0])
-	n6 := mk(6, network.HiddenNeuron, nil)
+	n6 := mk(7, network.HiddenNeuron, nil)
 	n6.ActivationType = neatmath.TanhActivation
-	nodes := []*network.NNode{n1, n2, n3, n4, n5, n6}
+	n7 := mk(6, network.OutputNeuron, traits[1]) // an output no gene touches
+	nodes := []*network.NNode{n1, n2, n3, n4, n5, n7, n6}
 	genes := []*genetics.Gene{
 		genetics.NewGeneWithTrait(traits[0], 0.5, n1, n6, false, 1, 0.5),
 		genetics.NewGeneWithTrait(traits[1], -1.25, n6, n4, false, 2, -1.25),
-		genetics.NewGeneWithTrait(traits[2], 2.0, n3, n4, false, 3, 2.0),
-		genetics.NewGeneWithTrait(traits[0], 0.75, n6, n6, true, 4, 0.75),
-		genetics.NewGeneWithTrait(nil, 3.5, n1, n5, false, 5, 3.5),
-		genetics.NewGeneWithTrait(traits[1], -0.5, n4, n6, true, 6, -0.5),
+		genetics.NewGeneWithTrait(traits[1], 0.25, n6, n4, true, 3, 0.25), // same endpoints as gene 2, other recurrence flag
+		genetics.NewGeneWithTrait(traits[2], 2.0, n3, n4, false, 4, 2.0),
+		genetics.NewGeneWithTrait(traits[0], 0.75, n6, n6, true, 5, 0.75),
+		genetics.NewGeneWithTrait(nil, 3.5, n1, n5, false, 6, 3.5),
+		genetics.NewGeneWithTrait(traits[1], -0.5, n4, n6, true, 7, -0.5),
 	}
-	genes[2].IsEnabled = false
+	genes[3].IsEnabled = false
 	return genetics.NewGenome(1, traits, nodes, genes)
 }
 
@@ -324,6 +326,24 @@ func (l *lineage) mate(m1, m2 *member, method string, f1, f2 float64) *member {
 	if dis && (only || len(m1.g.Genes) != len(m2.g.Genes)) {
 		l.stats["mate-nontrivial"]++
 	}
+	type key struct {
+		a, b int
+		r    bool
+	}
+	keys := map[key]int64{}
+	conflict := false
+	for _, gs := range [][]*genetics.Gene{m1.g.Genes, m2.g.Genes} {
+		for _, g := range gs {
+			k := key{g.Link.InNode.Id, g.Link.OutNode.Id, g.Link.IsRecurrent}
+			if n, ok := keys[k]; ok && n != g.InnovationNum {
+				conflict = true
+			}
+			keys[k] = g.InnovationNum
+		}
+	}
+	if conflict {
+		l.stats["mate-same-link-two-numbers"]++
+	}
 	return cm
 }
 
@@ -348,12 +368,150 @@ func (l *lineage) step() {
 	case r < 85: // in-place mutation of a pool member (histories on the copy or the original)
 		m := pick()
 		l.mutate(m.gid, m.g, pickMutator(big(m.g)))
-	case r < 94:
+	case r < 91:
 		l.duplicate(pick())
 	default: // generation boundary: the registry is forgotten
 		l.pop.VerifClearInnovations()
 		l.emit(map[string]interface{}{"ev": "gen", "reglen": len(l.pop.VerifInnovationsUnsafe())})
 		l.stats["gen"]++
+	}
+}
+
+// conflictScenario builds, with the ordinary operators, two descendants of the start genome that carry the SAME link
+// under two DIFFERENT innovation numbers (the link arose in two generations) and mates them in every way; this is the
+// situation the same-link conflict check of the crossovers exists for.
+func (l *lineage) conflictScenario() {
+	start := l.pool[0]
+	newKey := func(m *member, before int) (int, int, bool, bool) {
+		if len(m.g.Genes) != before+1 {
+			return 0, 0, false, false
+		}
+		for _, g := range m.g.Genes {
+			seen := false
+			for _, o := range start.g.Genes {
+				if o.InnovationNum == g.InnovationNum {
+					seen = true
+				}
+			}
+			if !seen {
+				return g.Link.InNode.Id, g.Link.OutNode.Id, g.Link.IsRecurrent, true
+			}
+		}
+		return 0, 0, false, false
+	}
+	b := l.duplicate(start)
+	if b == nil {
+		return
+	}
+	n0 := len(b.g.Genes)
+	for try := 0; try < 10 && len(b.g.Genes) == n0; try++ {
+		l.mutate(b.gid, b.g, "addlink")
+	}
+	u, v, r, ok := newKey(b, n0)
+	if !ok {
+		return
+	}
+	l.pop.VerifClearInnovations()
+	l.emit(map[string]interface{}{"ev": "gen", "reglen": len(l.pop.VerifInnovationsUnsafe())})
+	for try := 0; try < 40; try++ {
+		c := l.duplicate(start)
+		if c == nil {
+			return
+		}
+		l.mutate(c.gid, c.g, "addlink")
+		if cu, cv, cr, cok := newKey(c, n0); cok && cu == u && cv == v && cr == r {
+			for _, method := range []string{"multipoint", "multipointavg", "singlepoint"} {
+				for _, f := range [][2]float64{{2, 1}, {1, 2}, {1, 1}} {
+					l.mate(b, c, method, f[0], f[1])
+					l.mate(c, b, method, f[0], f[1])
+				}
+			}
+			l.stats["conflict-scenarios"]++
+			// second stage: give both a common LATER gene (the same new link in one generation re-uses the number), so
+			// that the conflicting genes lie in the middle of the walk, and mate with many crossing points
+			l.pop.VerifClearInnovations()
+			l.emit(map[string]interface{}{"ev": "gen", "reglen": len(l.pop.VerifInnovationsUnsafe())})
+			last := func(m *member) (int, int, bool, int64) {
+				g := m.g.Genes[len(m.g.Genes)-1]
+				return g.Link.InNode.Id, g.Link.OutNode.Id, g.Link.IsRecurrent, g.InnovationNum
+			}
+			var bs, cs []*member
+			for try := 0; try < 12; try++ {
+				for _, src := range []*member{b, c} {
+					d := l.duplicate(src)
+					if d == nil {
+						return
+					}
+					n := len(d.g.Genes)
+					l.mutate(d.gid, d.g, "addlink")
+					if len(d.g.Genes) == n+1 {
+						if src == b {
+							bs = append(bs, d)
+						} else {
+							cs = append(cs, d)
+						}
+					}
+				}
+			}
+			for _, x := range bs {
+				for _, y := range cs {
+					xu, xv, xr, xi := last(x)
+					yu, yv, yr, yi := last(y)
+					if xu == yu && xv == yv && xr == yr && xi == yi {
+						for k := 0; k < 6; k++ {
+							l.mate(x, y, "singlepoint", 1, 1)
+							l.mate(y, x, "singlepoint", 1, 1)
+						}
+						l.mate(x, y, "multipoint", 1, 1)
+						l.mate(y, x, "multipointavg", 2, 1)
+						l.stats["conflict-scenarios-stage2"]++
+						return
+					}
+				}
+			}
+			return
+		}
+	}
+}
+
+// twinSplitScenario splits, within one generation, two different genes that join the same nodes (they differ in the
+// recurrence flag or in their number): two different innovations that must not be confused with each other.
+func (l *lineage) twinSplitScenario() {
+	start := l.pool[0]
+	type ends struct{ a, b int }
+	byEnds := map[ends][]int64{}
+	for _, g := range start.g.Genes {
+		if g.IsEnabled {
+			e := ends{g.Link.InNode.Id, g.Link.OutNode.Id}
+			byEnds[e] = append(byEnds[e], g.InnovationNum)
+		}
+	}
+	want := map[int64]bool{}
+	for _, inns := range byEnds {
+		if len(inns) > 1 {
+			for _, n := range inns {
+				want[n] = true
+			}
+		}
+	}
+	if len(want) == 0 {
+		return
+	}
+	got := map[int64]bool{}
+	for try := 0; try < 80 && len(got) < len(want); try++ {
+		x := l.duplicate(start)
+		if x == nil {
+			return
+		}
+		l.mutate(x.gid, x.g, "addnode")
+		for i, g := range x.g.Genes {
+			if i < len(start.g.Genes) && want[g.InnovationNum] && !g.IsEnabled && start.g.Genes[i].IsEnabled {
+				got[g.InnovationNum] = true
+			}
+		}
+	}
+	if len(got) == len(want) {
+		l.stats["twin-split-scenarios"]++
 	}
 }
 
@@ -383,6 +541,8 @@ func recordLineage(args []string) int {
 	l := &lineage{in: newInterner(), opts: opts, out: json.NewEncoder(f), rep: &vhu.Report{Command: "record-lineage"}, stats: map[string]int{}}
 	for s := 0; s < *segs; s++ {
 		l.reset(int(*seed) + s)
+		l.twinSplitScenario()
+		l.conflictScenario()
 		for i := 0; i < *steps; i++ {
 			l.step()
 		}
